@@ -407,6 +407,7 @@ func runC17(c *Ctx) {
 	runC17P12(c, rk1, rsaC1)
 	runC17P12Std(c)
 	runC17P12Fixtures(c)
+	runC17P12ManyDerivations(c)
 	runC17P12Files(c)
 	runC17P12Concurrent(c)
 }
